@@ -560,19 +560,24 @@ static void t2_sweep(void)
             if (deadline_hit())
                 break;
         }
-        struct bw w;
-        w.nbits = 0;
-        memset(w.b, 0, 24);
-        bw_put(&w, 0xa5, 8);
-        bw_put(&w, 7, 3);
-        bw_ue(&w, c.code);
-        bw_put(&w, 0xb7, 8);
-        bw_trailing(&w);
-        int n = bw_bytes(&w);
+        /* reference encoder on a 128-bit word: a5, 3 one bits, ue(v), b7, stop bit */
+        uint64_t x = v + 1;
+        int k = 63 - __builtin_clzll(x);
+        unsigned __int128 word = ((unsigned __int128)0xa5 << 3) | 7;
+        int nb = 11;
+        word = (word << (2 * k + 1)) | x; /* k zeros, then the k+1 bits of x */
+        nb += 2 * k + 1;
+        word = (word << 9) | (0xb7 << 1) | 1;
+        nb += 9;
+        int n = (nb + 7) >> 3;
+        word <<= n * 8 - nb;
+        uint8_t rb[16];
+        for (int i = 0; i < n; i++)
+            rb[i] = (uint8_t)(word >> (8 * (n - 1 - i)));
         uint8_t *wp;
         int sz = -1;
         ubase_assert(ubuf_block_write(ubuf, 0, &sz, &wp));
-        size_t ne = ep_encode(w.b, n, wp);
+        size_t ne = ep_encode(rb, n, wp);
         ubuf_block_unmap(ubuf, 0);
         (void)ne;
         char why[300];
